@@ -294,6 +294,24 @@ def register(gen, T):
         fid = squash(fn_body(scopes, "find_identifier"))
         fis = squash(fn_body(scopes, "find_identifier_in_scope"))
         ifs = squash(fn_body(scopes, "insert_function_in_scope"))
+        # the gathering loop of find_identifier_in_scope: the body of its first `for symbol in symbols { .. }`
+        gl_at = fis.find("forsymbolinsymbols{")
+        if gl_at < 0:
+            raise ExtractError("find_identifier_in_scope: the `for symbol in symbols` loop not found")
+        depth, k = 0, gl_at + len("forsymbolinsymbols")
+        gl_end = None
+        while k < len(fis):
+            if fis[k] == "{":
+                depth += 1
+            elif fis[k] == "}":
+                depth -= 1
+                if depth == 0:
+                    gl_end = k
+                    break
+            k += 1
+        if gl_end is None:
+            raise ExtractError("find_identifier_in_scope: unbalanced gathering loop")
+        gloop = fis[gl_at + len("forsymbolinsymbols{"):gl_end]
         gsm = squash(fn_body(scopes, "get_struct_member_expression"))
         # the routines around the resolution proper: instantiating a candidate's signature (may fail since 5dca4fc) and
         # the check of out / inout arguments that follows a successful resolution (b359800, 3758fdd)
@@ -435,6 +453,18 @@ def register(gen, T):
             ("scopeContributesItsOwnFunctionsOnly", fis,
              E("ScopeSymbol::Function(id)=>overloads.push(*id),") + ".*?" +
              E("if!overloads.is_empty(){returnSome(VariableExpression::Function(UnresolvedFunction{overloads,}));}")),
+            # the loop that gathers the overloads visits every symbol of the vector: no `break` / `continue`, no guarded
+            # or catch-all arm, a function is pushed, the four kinds that may share a name with a function have empty
+            # arms (the other arms return a value: such a symbol never stands in one vector with a function), and the
+            # overloads are handed over right after the loop
+            ("overloadGatheringVisitsAllSymbols", gloop,
+             r"^(?!.*\bbreak\b)(?!.*\bcontinue\b)(?!.*_if)(?!.*[,{]_=>)(?!.*\bif!?overloads)" +
+             "".join("(?=.*" + E(a) + ")" for a in
+                     ["matchsymbol{ScopeSymbol::Function(id)=>overloads.push(*id),", "ScopeSymbol::ConstantBuffer(_)=>{}",
+                      "ScopeSymbol::Type(_)=>{}", "ScopeSymbol::Namespace(_)=>{}", "ScopeSymbol::EnumScope(_)=>{}"])),
+            ("overloadsAreHandedOverRightAfterTheGatheringLoop", fis,
+             E("ScopeSymbol::EnumScope(_)=>{}}}}if!overloads.is_empty(){returnSome(VariableExpression::Function("
+               "UnresolvedFunction{overloads,}));}")),
             ("overloadsAreAppended", ifs,
              E("Entry::Occupied(mutoccupied)=>{occupied.get_mut().push(ScopeSymbol::Function(id));}"
                "Entry::Vacant(vacant)=>{vacant.insert(Vec::from([ScopeSymbol::Function(id)]));}")),
@@ -492,7 +522,8 @@ def register(gen, T):
                    "def contextFields : List String := " + T.lean_list(lean_str(f) for f in fields) + "\n\n")
         for name, text in [("findFunctionType", fft), ("findOverloadCasts", foc), ("tryInferTemplateType", tit),
                            ("normalizeTemplateType", ntt), ("applyTemplateTypeSubstitution", atts),
-                           ("checkOutputArguments", coa), ("checkMutablePlace", cmp_)]:
+                           ("checkOutputArguments", coa), ("checkMutablePlace", cmp_),
+                           ("findIdentifierInScope", fis)]:
             out.append(f"/-- body of `{name}` without comments and white space -/\ndef {name}Src : String :=\n  {lean_str(text)}\n\n")
         out.append(T.footer("ResolveShape"))
         return "".join(out)
